@@ -134,6 +134,18 @@ CloneArc(s, d) ==
     /\ DoClone("CloneArc", s, d, "Arc")
     /\ Rec(<<"CloneArc", s, d, "", 0>>)
 
+\* Clone::clone_from(&mut s, &t): s ends up as a clone of t; what s held before is released
+\* (the default `*self = source.clone()`; Vec<Handle>::clone_from reaches it)
+CloneFrom(s, t) ==
+    /\ On("CloneFrom") /\ s # t /\ ~Locked(s)
+    /\ hnd[s].k \in {"Arc", "Off", "Uni", "Dyn"} /\ hnd[t].k = hnd[s].k
+    /\ blk[hnd[s].b].ty = blk[hnd[t].b].ty \/ hnd[s].k \in {"Uni", "Dyn"}
+    /\ res' = [NoRes EXCEPT !.op = "CloneFrom", !.s = s]
+    /\ blk' = Release(RcInc(blk, hnd[t].b), hnd[s].b)
+    /\ hnd' = [hnd EXCEPT ![s].b = hnd[t].b]
+    /\ Rec(<<"CloneFrom", s, t, "", 0>>)
+    /\ UNCHANGED <<frames, aborted>>
+
 -----------------------------------------------------------------------------
 (* Release of a handle *)
 
@@ -376,6 +388,7 @@ NextLowest ==
                                \/ BorCopy(s, Lowest(FreeSlots))
                                \/ Enter(s, Lowest(FreeSlots))
           \/ Drop(s)
+          \/ \E t \in Slots : CloneFrom(s, t)
           \/ Forget(s)
           \/ \E c \in ConvTable : Conv(c, s)
           \/ IsUnique(s)
@@ -479,9 +492,9 @@ DeclineKeepsHandle ==
 CountSteps ==
     \A b \in Blocks : (blk[b].st = "live" /\ blk'[b].st = "live") =>
         \/ blk'[b].rc = blk[b].rc
-        \/ blk'[b].rc = blk[b].rc + 1 /\ res'.op \in {"Clone", "CloneArc"}
+        \/ blk'[b].rc = blk[b].rc + 1 /\ res'.op \in {"Clone", "CloneArc", "CloneFrom"}
         \/ blk'[b].rc + 1 = blk[b].rc
-               /\ res'.op \in {"Drop", "MakeMut", "UnwrapOrClone"}
+               /\ res'.op \in {"Drop", "MakeMut", "UnwrapOrClone", "CloneFrom"}
 
 \* C08: no operation changes the value seen through a handle other than the one it acts on
 CowIsolation ==
